@@ -25,7 +25,7 @@ while read -r id name class fix; do
     elif ! git -C "$WT" revert -n "$fix" >/dev/null 2>&1; then echo "cannot revert $fix cleanly (add regress/defects/$fix.diff)"; exit 2; fi
     VERIF_RUN_TIMEOUT_S=30 VERIF_OUT="$OUT/$key" VERIF_REPO="$WT" ./run.sh "$id" quick > "$OUT/$key/log" 2>&1
   fi
-  f=$(grep -l "\"class\": \"$class" "$OUT/$key"/replays/*.json 2>/dev/null | head -1)
+  f=$(grep -lF "\"class\": \"$class" "$OUT/$key"/replays/*.json 2>/dev/null | head -1)
   if [ -z "$f" ]; then echo "NOT REPRODUCED: $id $class with $fix reverted"; tail -5 "$OUT/$key/log"; fail=1; continue; fi
   mkdir -p "regress/$id"; cp "$f" "regress/$id/$name.json"; echo "re-recorded regress/$id/$name.json ($class, $fix reverted)"
 done <<'TABLE'
@@ -42,5 +42,6 @@ C05 node-reifier-double-wrap-overfetch c05/file/over-fetch 66de0e2
 C20 node-reifier-preload-noop c20/block-set-mismatch/ c4568c0
 C12 unmeasurable-child-skipped-as-empty c12/file/eof-instead-of-error d112abd
 C12 load-failing-with-io-eof-truncates-read c12/file/eof-instead-of-error cc90727
+C13 non-list-links-nil-iterator-panic c13/panic@file.(*shard 6631cf7
 TABLE
 exit $fail
